@@ -147,10 +147,7 @@ theorem gp_drop_none (s : GInner) : gprocess s (.dropped none none) = (s, []) :=
   | peerReconnected a b => cases b <;> rfl
 
 theorem gp_pr_timer_llgr (S lp : List Fam) :
-    gprocess (.peerRestarting S (some lp)) .timer =
-      (.llgrStaling (dedup lp),
-       (if (S.filter (fun f => !lp.contains f)).isEmpty then [] else [GOut.deleteStale (S.filter (fun f => !lp.contains f))])
-         ++ [.startLlgrTimers lp]) := rfl
+    gprocess (.peerRestarting S (some lp)) .timer = (.llgrStaling (dedup lp), [.startLlgrTimers lp]) := rfl
 
 theorem gp_pr_timer_none (S : List Fam) :
     gprocess (.peerRestarting S none) .timer = (.idle, [.deleteStale S]) := rfl
@@ -255,20 +252,11 @@ theorem spawn_closed (g : G) (fs : List Fam) :
 theorem grExp_llgr (g : G) (S lp : List Fam) (hgs : g.gs = .peerRestarting S (some lp)) :
     grTimerExpired g =
       { g with gs := .llgrStaling (dedup lp),
-               rib := (g.rib.filter (fun x => !(S.filter fun f => !lp.contains f).contains x.fam)).filterMap (mkAll lp),
+               rib := (g.rib.filter (fun x => !(!lp.contains x.fam && x.stale))).filterMap (mkAll lp),
                llgrTimers := dedup (g.llgrTimers ++ lp) } := by
   unfold grTimerExpired
-  simp only [hgs, gp_pr_timer_llgr]
-  cases hd : S.filter (fun f => !lp.contains f) with
-  | nil =>
-      simp only [List.isEmpty_nil, ↓reduceIte, List.nil_append, collectDelete, List.flatMap_cons, List.flatMap_nil,
-        List.append_nil, each_nil, llgrStart, List.findSome?_cons, spawn_closed, List.contains_nil, Bool.not_false]
-      congr 2
-      exact (List.filter_eq_self.mpr (by simp)).symm
-  | cons a l =>
-      simp only [List.isEmpty_cons, Bool.false_eq_true, ↓reduceIte, List.cons_append, List.nil_append, collectDelete,
-        List.flatMap_cons, List.flatMap_nil, List.append_nil, llgrStart, List.findSome?_cons, spawn_closed,
-        each_dropFam]
+  simp only [hgs, gp_pr_timer_llgr, collectDelete, List.flatMap_cons, List.flatMap_nil, List.append_nil, each_nil,
+    llgrStart, List.findSome?_cons, spawn_closed]
 
 theorem grExp_none (g : G) (S : List Fam) (hgs : g.gs = .peerRestarting S none) :
     grTimerExpired g = { g with gs := .idle, rib := g.rib.filter (fun x => !S.contains x.fam) } := by
@@ -775,10 +763,10 @@ theorem inv_grExpired {g : G} (h : Inv g) (ht : g.grTimer = true) :
             subst hxy
             exfalso
             have hS := hc.1 x hx.1 hm
-            have : x.fam ∈ S.filter (fun f => !lp.contains f) := by
-              rw [List.mem_filter]; exact ⟨hS, by simpa using hin⟩
+            have hst := hc.2 x hx.1 hS
             have hk := hx.2
-            rw [List.contains_iff_mem.mpr this] at hk; cases hk
+            have hin' : lp.contains x.fam = false := by simpa using hin
+            rw [hin', hst] at hk; cases hk
         · rw [List.mem_filterMap] at hy
           obtain ⟨x, hx, hxy⟩ := hy
           unfold mkAll at hxy
